@@ -32,7 +32,29 @@ def run(ctx):
     cmps = [(bi, t) for bi, t in b.calls() if (norm_fn(t.get("fn")) or "").endswith("Ord::cmp")]
     thens = [(bi, t) for bi, t in b.calls() if (norm_fn(t.get("fn")) or "").split("::")[-1] in ("then", "then_with")]
     ctx.floor("field comparisons in OpId::cmp", len(cmps), 2)
-    ctx.floor("Ordering::then in OpId::cmp", len(thens), 1)
+    # the other idiom: `match a.0.cmp(&b.0) { Equal => a.1.cmp(&b.1), o => o }`
+    match_form = False
+    if not thens:
+        for sb, sw in b.switches():
+            src = b.bool_operand_source(sw["op"])
+            if src and src["kind"] == "discr" and (src.get("ty") or "").endswith("cmp::Ordering"):
+                dd = b.single_def(src["origin"][0])
+                first = [cb for cb, t in cmps if dd and dd[1] == "t" and dd[0] == cb]
+                vs = src.get("vars") or {}
+                eq_edges = [(sb, tb) for v, tb in sw["targets"] if vs.get(v) == "Equal"]
+                others = [(sb, tb) for v, tb in sw["targets"] if vs.get(v) != "Equal"] + ([(sb, sw["otherwise"])] if len(sw["targets"]) < 3 else [])
+                second = [cb for cb, t in cmps if cb not in first]
+                def flds(cb):
+                    t = [t for x, t in cmps if x == cb][0]
+                    return [[e for e in (b.operand_origin(a) or (0, ()))[1] if e.startswith(".")] for a in t["args"]]
+                ok_first = bool(first) and all(x == [".0"] for x in flds(first[0]))
+                ok_second = bool(second) and all(x == [".1"] for x in flds(second[0])) and bool(eq_edges) and all(b.edges_dominate(eq_edges, cb) for cb in second)
+                # on the unequal arms the result is the first comparison's
+                match_form = ok_first and ok_second
+                ctx.ob("N1", "OpId::cmp|match on the counter comparison", match_form, b.rec["sp"], "counter first; actor index compared only on Equal" if match_form else
+                       "op ids are not ordered by (counter, actor) (counter comparison matched first: %s, actor compared on the Equal arm only: %s)" % (ok_first, ok_second))
+    if not match_form:
+        ctx.floor("Ordering::then in OpId::cmp", len(thens), 1)
 
     def fields_of(t):
         out = []
